@@ -48,12 +48,16 @@ SPEC = dict(
          "dimensions are complete for payloads the configuration's managers look at in the thorough tier and for the single-manager "
          "configurations, seeded otherwise; attribute spellings (absent vs empty, 8 garbage types, look-alike JIDs, ids needing XML "
          "escaping) are seeded. Configurations: no extension; each of 31 bundled managers alone, also in their non-initial states "
-         "(blocking subscribed; transfer manager with an accepting / declining fileReceived listener, with an accepted and with an "
-         "opened incoming in-band job; MUC manager with a room waiting for its permission lists); the default set, also over a "
+         "(blocking subscribed; transfer manager whose application accepts an offer with a writable device / with a device that is "
+         "not writable / aborts it — in the fileReceived slot or, the offer pending in between, after the slot returned —, with an "
+         "accepted job, with an opened job whose receiving device is good / fails / takes half a block, with a job finished by a "
+         "failed write; MUC manager with a room waiting for its permission lists); the default set, also over a "
          "really connected loopback socket and after that socket was disconnected again; bookmark / room / job sets next to "
          "competing managers; all managers together in 3 (quick) / 7 (thorough) registration orders with the stateful variants "
          "rotated in; 8 / 24 random small sets. A fresh client per cell (every 50 cells in the quick stateless all-managers runs). "
-         "The 37 witness cells of the repaired defects run first. Each line compares who decided (measured with probe extensions "
+         "The 37 witness cells of the repaired defects run first, then 10 whole incoming in-band transfers (offer, open, 3 data, close, "
+         "late data, open for an unknown session; decision x timing x device), each in a child process, with the replies counted "
+         "per request id (oracle only: exactly one each; a crash of the library is the failure of the request it died in). Each line compares who decided (measured with probe extensions "
          "between the managers), number of IQ replies, per reply result | error type + defined condition / to / id / sent through "
          "the e2ee extension, other traffic, and the stream error, between the real client and the Lean model; a configuration is "
          "non-trivial when it yields >= 2 distinct observations. Oracle (model independent): get/set => exactly one IQ of type "
@@ -87,9 +91,11 @@ SPEC = dict(
     assumptions=[
         "manager states covered: initial; blocklist subscribed; outstanding registration / setBookmarks / sendIq request; "
         "fileReceived listener that accepts or declines synchronously; one incoming in-band job (accepted, opened); a MUC room "
-        "waiting for permission lists / able to receive its configuration form. NOT covered: a fileReceived listener that keeps "
-        "the offer pending (the single reply is then sent when the application accepts or aborts the job), SOCKS5 jobs (reply after "
-        "an asynchronous TCP connect), outgoing transfer jobs, a registered RPC interface (result instead of item-not-found)",
+        "waiting for permission lists / able to receive its configuration form; decisions about an offer taken in the slot or later "
+        "in the same event turn, with writable / unwritable device or abort; receiving device good / failing / short-writing; a job "
+        "finished by a failed write. NOT covered: an application that never decides about an offer (the reply is sent when it "
+        "does), SOCKS5 jobs (reply after an asynchronous TCP connect), outgoing transfer jobs, a registered RPC interface (result "
+        "instead of item-not-found), the two-minute IBB inactivity timer",
         "the roster manager's handler does not depend on whether the roster was received; pubsub/PEP and MIX managers only handle "
         "<message/> events and IQ results through the request table; Jingle (QXmppCallManager, WITH_GSTREAMER=OFF) and OMEMO "
         "(BUILD_OMEMO=OFF) are not part of the built library: not modelled, not measured",
@@ -105,7 +111,7 @@ SPEC = dict(
     level_text="Theorems, all for a stanza with any number of children: (1) lifting lemma for EVERY extension list, session "
                "established: if each handler is good at the stanza, a get/set gets exactly one reply with the same id addressed "
                "to the sender (request_answered_once) and a result/error — awaited or not — gets none (response_never_answered); "
-               "(2) every bundled handler in every modelled state (37 rows) is good at every stanza (every_row_good), hence "
+               "(2) every bundled handler in every modelled state (41 rows) is good at every stanza (every_row_good), hence "
                "C08_holds / C08_requests / C08_responses for every set, order and state of bundled managers, for the stream, "
                "injectIq and e2ee entries; (3) when no extension claims a get/set the one reply is error cancel/"
                "feature-not-implemented to the sender with the request's id, encrypted iff the request arrived decrypted "
